@@ -390,11 +390,13 @@ namespace chaiscript {
                                         // the counter is owned by the Boxed_Value: a lambda capturing the loop variable
                                         // may outlive this frame
                                         const Boxed_Value loop_var = var(start_int);
-                                        int &i = *static_cast<int *>(loop_var.get_ptr());
+                                        // and the body may re-point the loop variable to another int (i := j),
+                                        // which releases the one it started with: look it up at every use
+                                        const auto i = [&loop_var]() noexcept -> int & { return *static_cast<int *>(loop_var.get_ptr()); };
                                         t_ss.add_object(id, loop_var);
 
                                         try {
-                                          for (; i < end_int; ++i) {
+                                          for (; i() < end_int; ++i()) {
                                             try {
                                               // Body of Loop
                                               children[0]->eval(t_ss);
